@@ -4,6 +4,8 @@ CONSTANTS
   PartEnds = {1, 2, 3}
   DevTornTailFailsGet = TRUE
   DevTimescaleZeroExits = FALSE
-INVARIANTS TypeOK Shape ServesComplete LostInLastPart PatchAfterParts TrueDurationRecorded ClassPredictionSound DeviationsExplainAll
+  DevRewritesFailedPart = FALSE
+INVARIANTS TypeOK Shape ShapeAfterFault ServesComplete LostInLastPart PatchAfterParts TrueDurationRecorded ClassPredictionSound DeviationsExplainAll
 INVARIANT EmitClasses
+INVARIANT EmitFaults
 CHECK_DEADLOCK FALSE
